@@ -361,6 +361,9 @@ func (m *MonBackend) Publish(c *broker.Client, msg *packet.Message, ack broker.A
 			m.Acks = append(m.Acks, AckEvent{Client: c, Msg: cp, Seq: s})
 			m.mu.Unlock()
 			ack()
+			// the broker's ack callback deletes the stored packet and queues the
+			// PUBACK/PUBCOMP; only now is the hand-over acknowledged
+			m.Ev.Add(name, "ack-returned", nil, fmt.Sprintf("topic=%q payload=%x", cp.Topic, clip(cp.Payload)))
 		}
 		switch m.AckMode {
 		case AckSync:
